@@ -261,7 +261,10 @@ func (it *indexedMessageIterator) loadChunk(chunkIndex *ChunkIndex) error {
 	chunkSlot := &it.chunkSlots[chunkSlotIndex]
 	bufSize := parsedChunk.UncompressedSize
 	if uint64(cap(chunkSlot.buf)) < bufSize {
-		chunkSlot.buf = make([]byte, bufSize)
+		chunkSlot.buf, err = makeSafe(bufSize)
+		if err != nil {
+			return fmt.Errorf("failed to allocate decompressed chunk buffer: %w", err)
+		}
 	} else {
 		chunkSlot.buf = chunkSlot.buf[:bufSize]
 	}
